@@ -1,28 +1,39 @@
 (* C05 — Rendered expressions re-parse to themselves; rendering is a fixed point.
-   Proved: (1) for every well-formed expression e (every AND / OR has two or more operands, which
-   the constructors enforce), the token sequence of its rendering - licenses, AND / OR, and a pair
-   of parentheses around every compound operand, WITH pairs optionally in parentheses as
-   render_as_readable writes them - is parsed back to e by the boolean parser, whatever the token
-   strings and positions; (2) the rendered string is the concatenation of the items of that
-   sequence, where AND / OR / parentheses are fixed texts and every license is the template
-   applied to it: a custom template changes the license items only.
-   (3) the token types of that sequence are exactly the items render() writes, and any token list
-   with these types - whatever strings and positions it carries - parses back to e;
-   (4) the words of the rendered string (split on white space and parentheses) are, in order, the
-   words of its items: the words of every license key, AND / OR / WITH, and the parentheses - for
-   keys that are space-free, parenthesis-free words joined by single spaces (splitting a
-   concatenation of such words, single spaces and parentheses gives back exactly those chunks).
-   What is left to the correspondence and the oracle is the step from these words to the tokens
-   under a given table (each rendered key recognised again as one token, which needs the table to be
-   free of operator words; C02_text_parses_to_its_tree reduces it to a segmentation of the words):
-   hence _partial on the round trip of the string. *)
+   Proved, for the model of the whole pipeline (splitter, Aho-Corasick scan, overlap filter, unknown
+   merge, WITH grouping, boolean parser):
+   (0) C05_rendering_parses_back: over a table none of whose keys and aliases has an operator word or a
+   parenthesis among its words, for every well-formed expression e (every AND / OR has two or more
+   operands, which the constructors enforce) whose licenses are renderable, parsing the default
+   rendering of e - plain or readable (WITH pairs in parentheses) - with the same table returns e
+   itself: identical structure, operand order and symbols, hence the same rendering again.
+   A license is renderable when its key is made of space-free, parenthesis-free words joined by single
+   spaces, none of them an operator word, and either the table stores these words as this very symbol
+   (a known license: what parse returns for a key or alias of the table) or no stored name occurs
+   among them, its flag is not "exception" and the key is what LicenseSymbol() makes of it (an unknown
+   license as parse creates it).  simplify, dedup and combine_expressions only rearrange the licenses
+   of their arguments (C06 - C09), so their results are renderable when the arguments are
+   (C05_renderable_is_about_licenses).
+   (1) the token sequence of the rendering - licenses, AND / OR, and a pair of parentheses around every
+   compound operand, WITH pairs optionally in parentheses as render_as_readable writes them - is
+   parsed back to e by the boolean parser, whatever the token strings and positions; (2) the rendered
+   string is the concatenation of the items of that sequence, where AND / OR / parentheses are fixed
+   texts and every license is the template applied to it: a custom template changes the license
+   items only; (3) the token types of that sequence are exactly the items render() writes, and any
+   token list with these types parses back to e; (4) the words of the rendered string are, in order,
+   the words of its items (splitting a concatenation of such words, single spaces and parentheses
+   gives back exactly those chunks).
+   Oracle facts used by (0) (checked on the running interpreter by the harness): U+0020 is white
+   space; the letters of AND OR WITH and the parentheses are not; lower-casing AND / OR / WITH gives
+   and / or / with; the letters of and / or / with and the parentheses are not white space and
+   lower-case to themselves. *)
+Require Import Model.Split Model.Trie Model.Licensing.
 Require Import Model.Base Model.Expr Model.Split Model.LicTok Model.BoolParse Proofs.BoolParse Proofs.Render.
-Require Import Proofs.Kinds Proofs.RenderKinds Proofs.RenderWords Proofs.Resplit.
+Require Import Proofs.Kinds Proofs.RenderKinds Proofs.RenderWords Proofs.Resplit Proofs.Reparse.
 
-Theorem C05_render_tokens_roundtrip_partial : forall i0 wrap e, wf e = true ->
+Theorem C05_render_tokens_roundtrip : forall i0 wrap e, wf e = true ->
   bparse (tok_or (to_or i0 wrap e)) = POk e.
 Proof. exact render_tokens_roundtrip. Qed.
-Print Assumptions C05_render_tokens_roundtrip_partial.
+Print Assumptions C05_render_tokens_roundtrip.
 
 Theorem C05_render_is_items : forall f wrap e, render_with f wrap e = flat_map (item_str f) (render_items wrap e).
 Proof. exact render_is_items. Qed.
@@ -34,13 +45,13 @@ Theorem C05_template_only_changes_licenses : forall f wrap e,
 Proof. exact render_template. Qed.
 Print Assumptions C05_template_only_changes_licenses.
 
-Theorem C05_items_parse_back : forall (i0 : info) e (ts : list ptok), wf e = true ->
-  map kind_of ts = render_items false e -> bparse ts = POk e.
+Theorem C05_items_parse_back : forall (i0 : info) wrap e (ts : list ptok), wf e = true ->
+  map kind_of ts = render_items wrap e -> bparse ts = POk e.
 Proof. exact render_kinds_roundtrip. Qed.
 Print Assumptions C05_items_parse_back.
 
-Theorem C05_surface_syntax_is_what_render_writes : forall (i0 : info) e, wf e = true ->
-  map kind_of (tok_or (to_or i0 false e)) = render_items false e.
+Theorem C05_surface_syntax_is_what_render_writes : forall (i0 : info) wrap e, wf e = true ->
+  map kind_of (tok_or (to_or i0 wrap e)) = render_items wrap e.
 Proof. exact kinds_to_or. Qed.
 Print Assumptions C05_surface_syntax_is_what_render_writes.
 
@@ -58,3 +69,72 @@ Print Assumptions C05_parser_ignores_token_strings.
 Theorem C05_resplit : forall O ws, canon O ws -> map ptext (pieces O (concat ws)) = ws.
 Proof. exact resplit. Qed.
 Print Assumptions C05_resplit.
+
+Theorem C05_rendering_parses_back : forall O, is_space O 32%N = true ->
+  (forall c, In c [65; 78; 68; 79; 82; 87; 73; 84; 72; 40; 41]%N -> is_space O c = false) ->
+  (lower O S_AND = s_and /\ lower O S_OR = s_or /\ lower O S_WITH = s_with /\ lower O s_lpar = s_lpar /\ lower O s_rpar = s_rpar) ->
+  (forall c, In c [97; 110; 100; 111; 114; 119; 105; 116; 104; 40; 41]%N -> is_space O c = false /\ lower_ch O c = [c]) ->
+  forall T : list entry,
+  (forall n v, In (n, v) (flat_map (entry_adds O) T) -> forall w, In w (lwords O n) -> is_keyword_str w = false) ->
+  forall (kwords : sym -> list str) wrap e, wf e = true -> renderable O T kwords e ->
+  parse_tokens O T false false (render_with key wrap e) = Ok e.
+Proof. exact render_parse_roundtrip. Qed.
+Print Assumptions C05_rendering_parses_back.
+
+Theorem C05_renderable_is_about_licenses : forall O T kwords e e', incl (literals e') (literals e) ->
+  renderable O T kwords e -> renderable O T kwords e'.
+Proof. exact renderable_incl. Qed.
+Print Assumptions C05_renderable_is_about_licenses.
+
+(* non-vacuity: "gpl OR (mit WITH classpath AND zz yy)" over a table with a two-word alias; the premises hold and the
+   conclusion is obtained through the theorem, for the plain and for the readable rendering *)
+Require Import Model.Index.
+Definition T5 : list entry :=
+  [ {| ekey := [103; 112; 108]%N; ealiases := [[103; 110; 117; 32; 103; 112; 108]%N]; eexc := false |};
+    {| ekey := [109; 105; 116]%N; ealiases := []; eexc := false |};
+    {| ekey := [99; 108; 97; 115; 115; 112; 97; 116; 104]%N; ealiases := []; eexc := true |} ].
+Definition gpl5 := {| key := [103; 112; 108]%N; exc := false |}.
+Definition mit5 := {| key := [109; 105; 116]%N; exc := false |}.
+Definition cp5 := {| key := [99; 108; 97; 115; 115; 112; 97; 116; 104]%N; exc := true |}.
+Definition zzyy5 := {| key := [122; 122; 32; 121; 121]%N; exc := false |}.
+Definition e5 : expr := Or [Lit (Plain gpl5); And [Lit (With mit5 cp5); Lit (Plain zzyy5)]].
+Definition kw5 (s : sym) : list str := split_ws ascii_oracle (key s).
+
+Ltac ctext5 := split; [discriminate | intros c Hc; simpl in Hc; repeat (destruct Hc as [<-|Hc]; [reflexivity|]); destruct Hc].
+Ltac nokw5 := intros w Hw; vm_compute in Hw; repeat (destruct Hw as [<-|Hw]; [vm_compute; reflexivity|]); destruct Hw.
+
+Example renderable5 : renderable ascii_oracle T5 kw5 e5.
+Proof.
+  intros a Ha s Hs. simpl in Ha. destruct Ha as [<-|[<-|[<-|[]]]]; simpl in Hs.
+  - destruct Hs as [<-|[]]. split; [|split].
+    + split; [reflexivity|]. split; [discriminate|]. apply Forall_forall; intros w Hw; vm_compute in Hw; repeat (destruct Hw as [<-|Hw]; [ctext5|]); destruct Hw.
+    + nokw5.
+    + assert (E : look ascii_oracle T5 (map (lower ascii_oracle) (kw5 gpl5)) = Some (key gpl5, VSym gpl5)) by (vm_compute; reflexivity).
+      rewrite E. reflexivity.
+  - destruct Hs as [<-|[<-|[]]]; (split; [|split]).
+    + split; [reflexivity|]. split; [discriminate|]. apply Forall_forall; intros w Hw; vm_compute in Hw; repeat (destruct Hw as [<-|Hw]; [ctext5|]); destruct Hw.
+    + nokw5.
+    + assert (E : look ascii_oracle T5 (map (lower ascii_oracle) (kw5 mit5)) = Some (key mit5, VSym mit5)) by (vm_compute; reflexivity).
+      rewrite E. reflexivity.
+    + split; [reflexivity|]. split; [discriminate|]. apply Forall_forall; intros w Hw; vm_compute in Hw; repeat (destruct Hw as [<-|Hw]; [ctext5|]); destruct Hw.
+    + nokw5.
+    + assert (E : look ascii_oracle T5 (map (lower ascii_oracle) (kw5 cp5)) = Some (key cp5, VSym cp5)) by (vm_compute; reflexivity).
+      rewrite E. reflexivity.
+  - destruct Hs as [<-|[]]. split; [|split].
+    + split; [reflexivity|]. split; [discriminate|]. apply Forall_forall; intros w Hw; vm_compute in Hw; repeat (destruct Hw as [<-|Hw]; [ctext5|]); destruct Hw.
+    + nokw5.
+    + assert (E : look ascii_oracle T5 (map (lower ascii_oracle) (kw5 zzyy5)) = None) by (vm_compute; reflexivity).
+      rewrite E. split; [reflexivity|]. split; [vm_compute; reflexivity|].
+      apply no_occurrence_check. vm_compute. reflexivity.
+Qed.
+
+Example C05_example : forall wrap, parse_tokens ascii_oracle T5 false false (render_with key wrap e5) = Ok e5.
+Proof.
+  intro wrap. apply (C05_rendering_parses_back ascii_oracle eq_refl) with (kwords := kw5).
+  - intros c Hc. simpl in Hc. repeat (destruct Hc as [<-|Hc]; [reflexivity|]). destruct Hc.
+  - repeat split; reflexivity.
+  - intros c Hc. simpl in Hc. repeat (destruct Hc as [<-|Hc]; [split; reflexivity|]). destruct Hc.
+  - intros n v Hin. vm_compute in Hin. repeat (destruct Hin as [Hin|Hin]; [inversion Hin; subst n v; nokw5|]). destruct Hin.
+  - reflexivity.
+  - exact renderable5.
+Qed.
